@@ -150,7 +150,18 @@ AlongAxis(a, ax, m, F(_, _)) ==
 Live(vals, mask) == LET idx == SelectSeq([j \in 1..Len(vals) |-> j], LAMBDA j : ~mask[j])
                     IN [j \in 1..Len(idx) |-> vals[idx[j]]]
 
-Reducers == {"sum", "min", "max", "mean", "var", "prod", "any", "all"}
+\* the median of the unmasked values: the middle one of the sorted values, or the
+\* mean of the two middle ones (only the string form reduce_dim offers it: it
+\* resolves names that are no array methods in numpy.ma, then numpy)
+RECURSIVE RInsert(_, _)
+RInsert(x, s) == IF Len(s) = 0 THEN <<x>>
+                 ELSE IF RLe(x, Head(s)) THEN <<x>> \o s ELSE <<Head(s)>> \o RInsert(x, Tail(s))
+RECURSIVE RSort(_)
+RSort(s) == IF Len(s) = 0 THEN <<>> ELSE RInsert(Head(s), RSort(Tail(s)))
+RMedian(lv) == LET srt == RSort(lv) n == Len(lv) IN
+               IF n % 2 = 1 THEN srt[(n + 1) \div 2]
+               ELSE RDiv(RAdd(srt[n \div 2], srt[n \div 2 + 1]), RInt(2))
+Reducers == {"sum", "min", "max", "mean", "var", "prod", "any", "all", "median"}
 \* masked-array semantics: masked cells are excluded; an all-masked lane is masked
 Reduce(r, vals, mask) ==
   LET lv == Live(vals, mask)
@@ -163,6 +174,7 @@ Reduce(r, vals, mask) ==
                          [] r = "max"  -> RMaxSeq(lv)
                          [] r = "prod" -> RProdSeq(lv)
                          [] r = "mean" -> RDiv(RSumSeq(lv), RInt(n))
+                         [] r = "median" -> RMedian(lv)
                          [] r = "var"  -> RSub(RDiv(RSumSeq(sq), RInt(n)),
                                                RMul(RDiv(RSumSeq(lv), RInt(n)), RDiv(RSumSeq(lv), RInt(n))))
                          [] r = "any"  -> RInt(IF \E j \in 1..n : lv[j].n # 0 THEN 1 ELSE 0)
